@@ -26,15 +26,15 @@ Definition accepted_type (h : option string) : bool :=
 
 Inductive body := BText (dispatch_out : option (json * list Z))      (* decodable body; what the dispatcher returned for it *)
                 | BUndecodable.                                       (* not valid UTF-8 *)
-Inductive status_fn := SDefault | SFirstError (table : list (Z * Z)) (other : Z).
-(* the harness's status functions: 200 when every code is 0, else the table entry of the first non-zero code, else [other] *)
+Inductive status_fn := SDefault | SFirstError (table : list (Z * Z)) (other : Z) (allok : Z).
+(* the harness's status functions: [allok] when every code is 0, else the table entry of the first non-zero code, else [other] *)
 Fixpoint first_error (codes : list Z) : option Z :=
   match codes with [] => None | c :: r => if Z.eqb c 0 then first_error r else Some c end.
 Fixpoint ztable (c : Z) (t : list (Z * Z)) : option Z := match t with [] => None | (k, v) :: r => if Z.eqb k c then Some v else ztable c r end.
 Definition status_of (f : status_fn) (codes : list Z) : Z :=
   match f with
   | SDefault => 200
-  | SFirstError t other => match first_error codes with None => 200 | Some c => match ztable c t with Some s => s | None => other end end
+  | SFirstError t other allok => match first_error codes with None => allok | Some c => match ztable c t with Some s => s | None => other end end
   end%Z.
 
 Record reply := { r_status : Z; r_ctype : option string; r_body : option json; r_dispatched : bool }.
